@@ -79,3 +79,76 @@ Check (C14_debug_split_refuted :
                   /\ map zh_res (i_zooms i) = [0] /\ map zh_res (i_zooms j) = [10])
   /\ replay T = replay (ex_trace ck_whole)).
 End PinC14.
+
+(* ---- the bigBed writer ---- *)
+From BT Require Model.BigBedWrite Model.BBIReadBed Model.SinkTraceBed Proofs.BedQuery Proofs.BedCodec Proofs.BedReadInfo
+  Proofs.BedEndToEnd Proofs.SinkBedPhases Proofs.SinkBedServe.
+
+Module PinC14Bed.
+Import Base.LE Base.Float Generated.Consts Model.RTree Model.BBIFile Model.BigWigWrite Model.BBIRead Model.SinkTrace
+  Proofs.RTreeCodec Proofs.SinkBytes Proofs.SinkExec
+  Model.BigBedWrite Model.BBIReadBed Model.SinkTraceBed Proofs.BedCodec Proofs.BedReadInfo Proofs.BedEndToEnd
+  Proofs.SinkBedPhases Proofs.SinkBedServe Properties.C14.
+Local Open Scope N_scope.
+
+(* the notions the statements use, pinned too *)
+Check (eq_refl : complete_at = fun so p X =>
+  (length (body p) <= length X <= length (body p) + 4)%nat
+  /\ forall i, (i < length (body p))%nat -> ~ (so <= i < so + 48)%nat -> nth i X 0 = nth i (final_bytes p) 0).
+Check (eq_refl : bb_serves = fun autosql input F X =>
+  exists i sql fc, read_info F = Ok i /\ read_info X = Ok i /\ bb_schema autosql = Ok (sql, fc)
+    /\ (forall infl c es s e, In (c, es) (bruns input) ->
+          bb_interval infl X i c s e = Ok (filter (bkeep s e) es)
+          /\ bb_interval infl F i c s e = Ok (filter (bkeep s e) es))
+    /\ bb_autosql X i = Ok (Some sql) /\ bb_autosql F i = Ok (Some sql)).
+Check (eq_refl : file_hyps = fun o sizes input f =>
+  o_bs o <= 65535 /\ Nlen (bruns input) < U16 /\ input_ok input
+  /\ Forall (fun s => snd s < U32) sizes /\ Nlen f <= U64).
+Check (eq_refl : input_ok = fun input =>
+  Forall (fun it => no_nul_name (fst it) /\ Nlen (fst it) < U32 /\ entry_ok (snd it)) input).
+Check (eq_refl : entry_ok = fun x =>
+  e_start x < U32 /\ e_end x < U32 /\ no_nul (e_rest x) /\ ~ (e_start x = 0 /\ e_end x = 0)).
+Check (eq_refl : bkeep = fun s e x => (s <=? e_end x) && (e_start x <=? e)).
+
+Check (C14_bb_header_operation : forall ck fp kind o sizes autosql input sql p,
+  chunker_ok ck -> bb_parts fp kind o sizes autosql input = Ok (sql, p) ->
+  nth_error (snd (bb_sink_run None ck fp kind o sizes autosql input)) (bb_header_index ck kind sql p)
+    = Some (SWrite 0 (p_hdr p ++ p_zdir p))
+  /\ firstn 4 (p_hdr p) = u32 BIGBED_MAGIC /\ Nlen (p_hdr p ++ p_zdir p) <= 304).
+Check (C14_bb_prefix_rejected : forall ck fp kind o sizes autosql input sql p n c,
+  chunker_ok ck -> bb_parts fp kind o sizes autosql input = Ok (sql, p) ->
+  (n < bb_header_index ck kind sql p)%nat ->
+  rejected (replay (cut_ops (snd (bb_sink_run None ck fp kind o sizes autosql input)) n c))).
+Check (C14_bb_prefix_rejected_ops : forall ck fp kind o sizes autosql input sql p n,
+  chunker_ok ck -> bb_parts fp kind o sizes autosql input = Ok (sql, p) ->
+  (n <= bb_header_index ck kind sql p)%nat ->
+  rejected (replay (firstn n (snd (bb_sink_run None ck fp kind o sizes autosql input))))).
+Check (C14_bb_prefix_complete : forall ck fp kind o sizes autosql input sql p n c,
+  chunker_ok ck -> bb_parts fp kind o sizes autosql input = Ok (sql, p) ->
+  (bb_header_index ck kind sql p < n)%nat ->
+  complete_at (305 + length sql) p (replay (cut_ops (snd (bb_sink_run None ck fp kind o sizes autosql input)) n c))).
+Check (C14_bb_trace_is_file : forall ck fp o sizes autosql input sql p,
+  chunker_ok ck -> bb_parts fp 0 o sizes autosql input = Ok (sql, p) ->
+  fst (bb_sink_run None ck fp 0 o sizes autosql input) = Ok tt
+  /\ bb_write fp o sizes autosql input = Ok (replay (snd (bb_sink_run None ck fp 0 o sizes autosql input)))).
+Check (C14_bb_trace_is_file_multipass : forall ck fp o sizes autosql input sql p,
+  chunker_ok ck -> bb_parts fp 1 o sizes autosql input = Ok (sql, p) ->
+  fst (bb_sink_run None ck fp 1 o sizes autosql input) = Ok tt
+  /\ bb_write_multipass fp o sizes autosql input = Ok (replay (snd (bb_sink_run None ck fp 1 o sizes autosql input)))).
+Check (C14_bb_prefix_serves : forall ck fp kind o sizes autosql input sql p n c,
+  chunker_ok ck -> bb_parts fp kind o sizes autosql input = Ok (sql, p) ->
+  file_hyps o sizes input (final_bytes p) ->
+  (bb_header_index ck kind sql p < n)%nat ->
+  let T := snd (bb_sink_run None ck fp kind o sizes autosql input) in
+  bb_serves autosql input (replay T) (replay (cut_ops T n c))).
+Check (C14_bb_refused_input : forall ck fp kind o sizes autosql input n c,
+  chunker_ok ck -> (forall sp, bb_parts fp kind o sizes autosql input <> Ok sp) ->
+  fst (bb_sink_run None ck fp kind o sizes autosql input) <> Ok tt
+  /\ rejected (replay (cut_ops (snd (bb_sink_run None ck fp kind o sizes autosql input)) n c))).
+Check (C14_bb_fault : forall ck fp kind o sizes autosql input kd k,
+  (k < count_kind kd (snd (bb_sink_run None ck fp kind o sizes autosql input)))%nat ->
+  fst (bb_sink_run (Some (kd, k)) ck fp kind o sizes autosql input) <> Ok tt).
+Check (C14_bb_fault_state : forall f ck fp kind o sizes autosql input,
+  exists n, snd (bb_sink_run f ck fp kind o sizes autosql input)
+            = firstn n (snd (bb_sink_run None ck fp kind o sizes autosql input))).
+End PinC14Bed.
